@@ -20,7 +20,7 @@ func c18Docs(thorough bool) []doc {
 	as := []string{"[3,1,2]", "[]", "[1.5,null]"}
 	sas := []string{`["b","a"]`, "[]"}
 	os := []string{"{}", `{"k":1,"n":"x"}`}
-	oas := []string{`[{"k":"x","n":2},{"k":"y","n":1},{"k":"x","n":3}]`, "[]"}
+	oas := []string{`[{"k":"x","n":2},{"k":"y","n":1},{"k":"x","n":3}]`, "[]", `[{"n":null},{"k":"y"},{"k":"x","n":3},{}]`}
 	if thorough {
 		ss = append(ss, `"é€"`)
 		ns = append(ns, "0", "1e2")
@@ -55,6 +55,7 @@ var c18First = []string{
 	"sort_by(oa, &n)", "sort_by(oa, &k)", "split(s, ',')", "split(s, '', `1`)", "starts_with(s, 'a')", "sum(a[?@])", "to_array(n)", "to_array(a)", "to_number(s)", "to_number('1e2')", "to_number('0.10')",
 	"to_string(o)", "to_string(n)", "to_string(s)", "trim(s)", "trim_left(s)", "trim_right(s, ' ')", "type(n)", "type(@)", "upper(s)", "values(o)", "zip(a, sa)", "zip(sa, a, a)",
 	"sum(`[]`)", "avg(`[]`)", "max(`[]`)", "group_by(`[]`, &k)", "sort_by(`[]`, &k)", "keys(`{}`)", "values(`{}`)", "items(`{}`)", "from_items(`[]`)", "merge(`{}`)", "zip(`[]`)", "split('', '')", "map(&@, `[]`)",
+	"oa[*].n", "oa[*].k", "oa[1:].n", "oa[::-1].k", "oa[*].n | [0]", "oa[*].[n][0]", "abs(`1e7000`)", "-`1e7000`", "max([`1e7000`, n])", "min([`-4e6200`])", "ceil(`-4e6200`)", "floor(`1e7000`)", "[`1e7000`]", "`1e7000`", "sort([`1e7000`, n])",
 	"a[?`false`]", "oa[?k == 'none']", "oa[?k == 'none'].n", "a[5:]", "o.*.missing", "[a[5:], oa[?`false`]]", "s[0:2]", "s[::-1]", "s[5:]", "a[*][0]", "oa[].k", "a[][]", "[[1]][]", "(a)[*]", "a[*] | [*]",
 }
 
